@@ -132,9 +132,11 @@ Inductive answer :=
 | AFail               (* token endpoint: anything else *)
 | AShare (id : N)     (* no request of this call: the cache handed it the token that a concurrent
                          call's in-flight fetch for the same host, scheme and key obtained *)
-| AErr.               (* no response: transport error or cancelled context *)
+| AErr                (* no response: transport error or cancelled context *)
+| AShareFail.         (* no request of this call: the cache handed it the ERROR of a concurrent call's
+                         in-flight fetch for the same host, scheme and key *)
 
-Inductive err := ENoCred | EMissing | EFetch | ERewind | ETransport | ECred.
+Inductive err := ENoCred | EMissing | EFetch | ERewind | ETransport | ECred | EShared.
 
 Inductive result :=
 | RResp (is401 : bool)
@@ -258,6 +260,7 @@ Definition do_request (clean : list str -> list str) (parse : str -> scheme * pa
           match script2 with
           | ATok id :: script3 => finish [(s, ATok id)] (SIssued h id) script3
           | AShare id :: script3 => finish [] (SIssued h id) script3
+          | AShareFail :: _ => (evs0, c, RErr EShared)
           | AFail :: _ => (evs0 ++ [(s, AFail)], c, RErr EFetch)
           | AErr :: _ => (evs0 ++ [(s, AErr)], c, RErr ETransport)
           | _ => (evs0, c, RBad)
